@@ -89,13 +89,28 @@ func init() {
 		Title: "A mutating command either leaves a valid file or leaves the file untouched",
 		Rule: "files = the initial files of C04 plus EVERY single edit of them from the " + fmt.Sprint(len(docgen.Ops)) + "-operator fault catalogue (valid and invalid results: malformed dates/headlines, wrong/mixed indentation, malformed values, second open range, blank line inside a record, stray text, …) plus files with invalid UTF-8 / stray CR / no klog content; " +
 			"x " + fmt.Sprint(len(c05Ops())) + " commands (those of C04 plus 15 failure-directed ones: unknown --date for stop/switch, end before start, entry text that is no entry / re-indents / contains a blank line, invalid flag values, switch whose second step fails, pause --extend without pause); quick: every 3rd file. " +
-			"All through klog.Run (real exit status, real write path). A case = (file, command); distinct by hash of both.",
+			"All through klog.Run (real exit status, real write path). " +
+			"Plus PAIRS = every pair of catalogue edits on two different lines of each initial file (" + fmt.Sprint(c05PairCount()) + " files; quick: every 8th) x the same commands, command struct on the real context and real write path (commands whose flag values the CLI would reject are skipped there; the single-edit family runs them through klog.Run). " +
+			"A case = (file, command); distinct by hash of both.",
 		Assumptions: []string{
 			"exit 0 => the file afterwards is accepted by klog's parser and by the reference parser (lenient reading of klog's own don't-care zones); exit != 0 => bytes identical and no other file appeared in the directory; a panic is a violation",
 			"I/O faults and crash points are not part of this property's quantifier",
 		},
-		Units: func(t fw.Tier) int { return len(c05Files()) },
+		Units: func(t fw.Tier) int { return len(c05Files()) + (c05PairCount()+c05PairChunk-1)/c05PairChunk },
 		RunUnit: func(c *fw.Ctx, unit int) {
+			if unit >= len(c05Files()) {
+				lo := (unit - len(c05Files())) * c05PairChunk
+				for i := lo; i < lo+c05PairChunk && i < c05PairCount() && !c.Expired(); i++ {
+					if c.Tier == fw.Quick && i%8 != 0 {
+						continue
+					}
+					before := c05PairFile(i)
+					for _, o := range c05Ops() {
+						c05One(c, -1-i, before, o)
+					}
+				}
+				return
+			}
 			if c.Tier == fw.Quick && unit%3 != 0 && unit >= len(c04Init) {
 				return
 			}
@@ -112,13 +127,68 @@ func init() {
 	})
 }
 
+const c05PairChunk = 400
+
+var (
+	c05PairOnce  sync.Once
+	c05PairBases []*docgen.Base
+	c05PairOff   []int // first pair index of each base
+	c05PairList  [][][2]int
+	c05PairTotal int
+)
+
+func c05PairInit() {
+	c05PairOnce.Do(func() {
+		for _, s := range c04Init {
+			b, ok := docgen.NewBase(s)
+			if !ok {
+				continue
+			}
+			var ps [][2]int
+			for i := range b.Edits {
+				for j := i + 1; j < len(b.Edits); j++ {
+					if b.Edits[i].Line != b.Edits[j].Line {
+						ps = append(ps, [2]int{i, j})
+					}
+				}
+			}
+			c05PairBases = append(c05PairBases, b)
+			c05PairOff = append(c05PairOff, c05PairTotal)
+			c05PairList = append(c05PairList, ps)
+			c05PairTotal += len(ps)
+		}
+	})
+}
+
+func c05PairCount() int { c05PairInit(); return c05PairTotal }
+
+func c05PairFile(i int) string {
+	c05PairInit()
+	k := len(c05PairOff) - 1
+	for c05PairOff[k] > i {
+		k--
+	}
+	p := c05PairList[k][i-c05PairOff[k]]
+	b := c05PairBases[k]
+	return b.Apply(b.Edits[p[0]], b.Edits[p[1]])
+}
+
 func c05One(c *fw.Ctx, fi int, before string, o Op) {
 	dir := filepath.Join(fw.Scratch(), "c05")
 	os.RemoveAll(dir)
 	os.MkdirAll(dir, 0755)
 	path := filepath.Join(dir, "target.klg")
 	os.WriteFile(path, []byte(before), 0644)
-	r := RunOp(clidrv.Home("home"), path, o, c04Env)
+	var r clidrv.Result
+	if fi < 0 {
+		// PAIRS family: the command struct on the real context
+		var ok bool
+		if r, ok = ExecOp(clidrv.Home("home"), path, o, c04Env); !ok {
+			return
+		}
+	} else {
+		r = RunOp(clidrv.Home("home"), path, o, c04Env)
+	}
 	after := clidrv.ReadFile(path)
 	cs := c05Case{fi, o, fw.Txt(before)}
 	c.Eval(1)
